@@ -9,6 +9,7 @@
 #include <fstream>
 #include <functional>
 #include <sstream>
+#include <sys/time.h>
 #include <sys/wait.h>
 #include <unistd.h>
 
@@ -25,6 +26,15 @@ extern "C" __attribute__((used)) const char *__asan_default_options() {
   return "exitcode=77:detect_leaks=0:abort_on_error=0:allocator_may_return_null=1:detect_stack_use_after_return=0";
 }
 extern "C" __attribute__((used)) const char *__ubsan_default_options() { return "print_stacktrace=1:halt_on_error=1:exitcode=78"; }
+
+// Hang guard of last resort: user CPU time per run (SIGVTALRM terminates the process; the driver then classifies
+// the seed as any other worker death).  CPU time, not wall time, so that a loaded machine does not matter.
+static void arm_cpu_guard(int seconds) {
+  struct itimerval it;
+  memset(&it, 0, sizeof it);
+  it.it_value.tv_sec = seconds;
+  setitimer(ITIMER_VIRTUAL, &it, nullptr);
+}
 
 static std::string read_file(const std::string &path) {
   std::ifstream f(path);
@@ -89,6 +99,7 @@ static int worker(const std::string &mode, uint64_t from, uint64_t to, const std
   for (uint64_t seed = from; seed < to; seed++) {
     printf("RUN %llu\n", (unsigned long long)seed);
     fflush(stdout);
+    arm_cpu_guard(mode == "ansic" ? 900 : 120);
     Plan p = make_plan(mode, seed);
     ExecOptions o;
     o.use_twin = (mode != "perturb" && mode != "ansic");
@@ -131,6 +142,7 @@ static int replay(const std::string &path, bool keep_log, bool announce) {
   std::string err;
   if (!plan_from_text(read_file(path), &p, &err)) { fprintf(stderr, "bad plan: %s\n", err.c_str()); return 2; }
   if (p.mode != "perturb" && p.mode != "ansic") oracle_start();
+  arm_cpu_guard(p.mode == "ansic" ? 900 : 120);
   ExecOptions o;
   o.use_twin = (p.mode != "perturb" && p.mode != "ansic");
   o.keep_log = keep_log;
@@ -220,6 +232,10 @@ static ClassResult classify_text(const std::string &plan_text, const std::string
   }
   // crash: classify from the sanitizer / libc text and the operation in flight
   cr.crashed = true;
+  if (plan_text.find(" probe_reuse=1") != std::string::npos || plan_text.find(" early_free=1") != std::string::npos) {
+    cr.hash = "crash-in-probe-run";  // non-gating probe run (DESIGN.md §5): reported, not judged
+    return cr;
+  }
   std::istringstream is(errtxt);
   std::string line, opkind = "?", kind, site;
   int be = 0, fault = 0;
